@@ -246,6 +246,24 @@ def r3_resolver(ctx):
                 e = decision_on(p, lambda t: t[0] == "bin" and t[1] == "Eq" and ends_with_fields(t[2], "prefix_len"))
                 r = ret_of(p)
                 ctx.ob("R3", "NamespaceEntry::prefix[len0=%s]" % (e != 0), r[0] == "agg" and r[2] == ("None" if e != 0 else "Some"), "prefix_len 0 is the default-namespace entry", config=cfg)
+        # the pre-bound xml / xmlns entries must never be popped: their level is not above the initial nesting level
+        for db in F.bodies_with("name::NamespaceResolver", "Default", end="default"):
+            lv = set()
+            init = None
+            for p in ctx.paths(db):
+                for c in calls(p):
+                    if name_is(c[2], "Vec::push") and c[3][1][0] == "agg" and c[3][1][1].endswith("NamespaceEntry"):
+                        ad = F.adt("quick_xml::name::NamespaceEntry")
+                        names = [f["name"] for f in ad["variants"][0]["fields"]] if ad else []
+                        if "level" in names:
+                            lv.add(strip_wrappers(c[3][1][3][names.index("level")])[2])
+                r = ret_of(p)
+                if r is not None and r[0] == "agg":
+                    ad = F.adt("quick_xml::name::NamespaceResolver")
+                    names = [f["name"] for f in ad["variants"][0]["fields"]] if ad else []
+                    if "nesting_level" in names:
+                        init = strip_wrappers(r[3][names.index("nesting_level")])[2]
+            ctx.ob("R3", "reserved-bindings:level", bool(lv) and init is not None and all(isinstance(x, int) and x <= init for x in lv), "xml/xmlns are bound at a level (%s) not above the initial nesting level (%s), so no pop() removes them" % (sorted(lv, key=str), init), config=cfg)
         # pop
         pb = ctx.body(F, "name::NamespaceResolver::pop", "R3")
         if pb is not None:
